@@ -16,7 +16,7 @@ for l in open(f"{V}/properties.jsonl"):
     d = json.loads(l)
     props[d["id"]] = d
 tmpl = open(f"{V}/seeded/PROMPT.tmpl").read()
-claimed = [p["id"] for p in json.load(open(f"{V}/MANIFEST.json"))["properties"]]
+claimed = sorted({c["property_id"] for c in json.load(open(f"{V}/MANIFEST.json"))["checks"]})
 for pid in claimed:
     taken = []
     for m in sorted(glob.glob(f"{V}/seeded/{pid}-*/meta.json")):
